@@ -239,6 +239,7 @@ class G:
             lambda: [1, U.RaisesStopIteration(), 2], lambda: (U.SometimesRaises(True), [U.SometimesRaises(False)]),
             lambda: np.zeros(2, dtype=[("name", object), ("x", "i4")]), lambda: np.dtype([("name", object), ("y", "f8")]),
             lambda: [np.dtype("int32"), np.dtype("float64"), np.dtype(">i2"), np.dtype("float64")], lambda: np.bytes_(b"ab"), lambda: U.MyBytes(b"ab"), lambda: U.MyByteArray(b"cd"), lambda: [np.bytes_(b"x"), b"y"],
+            lambda: __import__("scipy.sparse", fromlist=["x"]).dok_array((2, 3)), lambda: {"m": __import__("scipy.sparse", fromlist=["x"]).dok_array((1, 1))},
             lambda: np.float64(1.5).__add__, lambda: slice(np.int64(1), None), lambda: U.Plain(np.arange(3), {"k": U.Plain(1, 2)}),
         ]
         return r.choice(makers)(), False
